@@ -45,6 +45,7 @@ def main(argv):
         return 2
     if tier not in ("quick", "thorough"):
         tier = "quick"
+    ck = None
     try:
         repo = Repo()
         ck = Check(pid, tier, repo, seed)
@@ -81,16 +82,16 @@ def main(argv):
         except Exception:
             cur = None
         if frozen is not None and cur is not None and cur != frozen and not replay:
-            ck2 = Check(pid, tier, Repo(), seed)
+            ck2 = ck if ck is not None else Check(pid, tier, Repo(), seed)   # keep what was already found before the analysis stopped
             if isinstance(e, Unmodelled):
-                ck2.explanation = "The analysis stopped at a construct it cannot normalise; the obligations of the property are therefore not discharged for this tree."
+                ck2.explanation = (getattr(ck2, "explanation", "") or "") + " [The analysis stopped at a construct it cannot normalise; the remaining obligations of the property are not discharged for this tree.]"
                 ck2.ob("UNPROVEN", "analysis", "construct outside the decidable fragment", str(e).split(" at ")[-1] if " at " in str(e) else "pyvaporation/",
                        False, "the changed code uses a construct for which the property's identities cannot be decided: %s" % e)
             else:
-                ck2.explanation = "A construct the rules of this property are anchored in is no longer found; the obligations of the property are therefore not discharged for this tree."
+                ck2.explanation = (getattr(ck2, "explanation", "") or "") + " [A construct the rules of this property are anchored in is no longer found; the remaining obligations of the property are not discharged for this tree.]"
                 ck2.ob("UNPROVEN", "analysis", "anchor of the property's rules is missing", "pyvaporation/",
                        False, "the changed code no longer contains what the property's argument rests on: %s" % e)
-            ck2.technique = "n/a (unproven)"
+            ck2.technique = getattr(ck2, "technique", None) or "n/a (unproven)"
             return ck2.finish()
         print("ANALYSIS-ERROR property=%s %s: %s" % (pid, type(e).__name__, e))
         return 2
